@@ -433,6 +433,12 @@ impl Board {
 
     fn validate_castle_rights(&self) -> Result<(), BoardValidationError> {
         let cr = self.castle_rights;
+        if cr.contains(Side::King, Color::White)
+            && self.raw.get(Pos::H1) != Some((Color::White, Piece::Rook))
+        {
+            return Err(BoardValidationError::InvalidCastleRights);
+        }
+
         if cr.contains(Side::Queen, Color::White)
             && self.raw.get(Pos::A1) != Some((Color::White, Piece::Rook))
         {
